@@ -127,3 +127,52 @@ seq_matches = Contract(
 REG[('SequenceSet', 'flatten')] = SELM._flatten_model
 CONTRACTS = [set_matches, or_matches, not_matches, all_matches, flag_matches, new_matches, size_matches, seq_init,
              seq_matches]
+
+
+# ---- SearchKey.__eq__ / __ne__ (pymap/parsing/specials/searchkey.py): equality of keys is equality of their content
+#
+# SearchCommand keeps the top-level keys in a frozenset: two keys that compare equal collapse into one, and the keys of a
+# SEARCH are ANDed -- so a key may only ever equal a key with the same name, the same argument and the same NOT polarity.
+# hash() is an arbitrary function here (equal arguments give equal hashes, nothing more): equality decided by comparing
+# hashes is refuted by any two arguments that collide (in CPython: the integers n and n + 2**61 - 1).
+FK = 'pymap/parsing/specials/searchkey.py'
+KeyBytes = RefS('KeyBytes')
+FilterR = RefS('Filter')
+SK = RecS('SearchKey', pyclass=(FK, 'SearchKey'), key=KeyBytes, filter=FilterR, inverse=BOOL)
+_SKT = TupleS(KeyBytes, FilterR, BOOL)
+HASH = z3.Function('hash', _SKT.z3(), z3.IntSort())
+
+
+def _sk_hash(ex, frame, e, base=None):
+    """hash(x) for a SearchKey x: its __hash__ is hash((value, filter, inverse)) (3 lines, read off the source);
+    for a tuple: the arbitrary function"""
+    v = ex.eval(e.args[0], frame)
+    if isinstance(v, VRec) and v.sort.name == 'SearchKey':
+        f = ex.st.store[v.rid]
+        v = VTuple([f['key'], f['filter'], f['inverse']], _SKT)
+    if isinstance(v, VTuple):
+        return VInt(HASH(v.term()))
+    raise Unsupported('hash of something else')
+
+
+from pyvc.engine import Unsupported  # noqa: E402
+
+
+def _same(s):
+    a, b = s.self, s.other
+    return (a.key == b.key) & (a.filter == b.filter) & (a.inverse == b.inverse)
+
+
+sk_eq = Contract('C13', FK, 'SearchKey.__eq__', params=dict(self=SK, other=SK), returns=BOOL, modifies=[], raises_only=(),
+                 calls={'hash': _sk_hash}, inline={'SearchKey.value'},
+                 ensures=[('equal_exactly_when_name_argument_and_polarity_are_the_same', lambda s: s.result == _same(s))])
+sk_ne = Contract('C13', FK, 'SearchKey.__ne__', params=dict(self=SK, other=SK), returns=BOOL, modifies=[], raises_only=(),
+                 calls={'hash': _sk_hash}, inline={'SearchKey.value'},
+                 ensures=[('unequal_exactly_when_one_of_them_differs', lambda s: s.result == ~_same(s))])
+sk_hash = Contract('C13', FK, 'SearchKey.__hash__', params=dict(self=SK), returns=INT, modifies=[], raises_only=(),
+                   calls={'hash': _sk_hash}, inline={'SearchKey.value'},
+                   ensures=[('consistent_with_equality', lambda s: VBool(_t(s.result) == HASH(
+                       _SKT.pack([unview(s.self.key), unview(s.self.filter), unview(s.self.inverse)]))))])
+from pyvc.engine import unview  # noqa: E402
+from pyvc.values import _t  # noqa: E402
+CONTRACTS += [sk_eq, sk_ne, sk_hash]
